@@ -50,6 +50,12 @@ def fresh(scr, ws, first=0, r=None, res=None):
     if r is not None and first > 0 and r.random() < 0.25 and unterminate_applied(orig):
         if res is not None:
             res.count("prior-applied-patches-file-without-final-newline")
+    if r is not None and first == 0 and r.random() < 0.1:
+        # as after a push that failed at the very first patch: the file is there, with nothing in it
+        os.makedirs(os.path.join(orig, ".pc"), exist_ok=True)
+        open(os.path.join(orig, ".pc", "applied-patches"), "wb").close()
+        if res is not None:
+            res.count("prior-applied-patches-file-of-zero-length")
     runner.copy_ws(orig, work)
     return orig, work
 
@@ -1385,7 +1391,7 @@ def c14_worker(item):
     r = random.Random(seed * 982451653 + 14)
     res = Res()
     shape = r.choice(["plain", "plain", "plain", "empty-source", "empty-patch", "empty-series", "all-applied", "goal-applied", "symlinked-source", "symlinked-patch",
-                      "many-files-low-fd-limit", "page-multiple-source"])
+                      "many-files-low-fd-limit", "page-multiple-source", "rename-over-a-file-the-failing-patch-emptied"])
     cfg = wsgen.GenConfig(p_fail=0.5, max_patches=r.choice([1, 3, 6]))
     cfg.p_early_poison = 0.4
     ws = wsgen.generate(seed, cfg)
@@ -1414,6 +1420,27 @@ def c14_worker(item):
                 pad = b"p" * padlen + b"\n"
             t0[pth] = (data + pad, mode)
         ws.trees[0] = t0
+    if shape == "rename-over-a-file-the-failing-patch-emptied":
+        # directed (D35): the failing patch empties b with a hunk that is not creation/deletion shaped ('+N,0' with N > 0), then
+        # renames a over the now empty b with a hunk that fails - the diagnostics must cope like the rollback does
+        nb, na = r.randint(1, 4), r.randint(3, 6)
+        b_lines = [b"b line %d\n" % i for i in range(nb)]
+        a_lines = [b"a line %d\n" % i for i in range(na)]
+        d_ = r.choice(["", "sub/"])
+        text = (b"--- a/%sb\n+++ b/%sb\n@@ -1,%d +%d,0 @@\n" % (d_.encode(), d_.encode(), nb, r.randint(2, 9)) + b"".join(b"-" + l for l in b_lines)
+                + b"diff --git a/%sa b/%sb\nrename from %sa\nrename to %sb\n--- a/%sa\n+++ b/%sb\n@@ -1,3 +1,3 @@\n a line 0\n-NO SUCH LINE\n+changed\n a line 2\n" % ((d_.encode(),) * 6))
+        pt = wsgen.PatchSpec("pzz-empty-then-rename.patch", [], 1, False, True)
+        pt.text = text
+        pt.series_line = pt.name
+        pt.prefix_style = "plain"
+        extra_files = {d_ + "a": (b"".join(a_lines), 0o644), d_ + "b": (b"".join(b_lines), r.choice([0o644, 0o600]))}
+        if ws.fail_at is not None:
+            ws.patches = ws.patches[:ws.fail_at]
+            ws.trees = ws.trees[:ws.fail_at + 1]
+        for t in ws.trees:
+            t.update(extra_files)
+        ws.patches.append(pt)
+        ws.fail_at = len(ws.patches) - 1
     if shape == "empty-source":
         # an existing zero-length file that a patch fills, and one that is only renamed / chmod-ed
         for t in ws.trees:
